@@ -156,6 +156,23 @@ def guard_case(case, ctx):
     ctx.count("size_guard_checks")
     ctx.must_raise(f"generate_hilbert_space({ms + 1})", ValueError, st.generate_hilbert_space, size=ms + 1)
     ctx.must_raise(f"generate_hilbert_space({ms + 7})", ValueError, st.generate_hilbert_space, size=ms + 7)
+    # the DEFAULT size (what fidelity / KL / NLL users get) of a state larger than the limit is refused as well; a small
+    # limit is set through the public max_size property so that a wrongly accepted request stays cheap
+    from qucumber.nn_states import ComplexWaveFunction, DensityMatrix, PositiveWaveFunction
+
+    for base in (PositiveWaveFunction, ComplexWaveFunction, DensityMatrix):
+        for lim in (1, 3, 5):
+            small = type("Small" + base.__name__, (base,), {"max_size": property(lambda self, lim=lim: lim)})
+            for nv in (lim + 1, lim + 3):
+                big = small(nv, 2, gpu=False) if base is not DensityMatrix else small(nv, 2, 2, gpu=False)
+                ctx.count("size_guard_checks")
+                ctx.must_raise(f"{base.__name__}(num_visible={nv}, max_size={lim}).generate_hilbert_space()", ValueError,
+                               big.generate_hilbert_space, tags={"size": "default"})
+                ctx.must_raise(f"{base.__name__}(num_visible={nv}, max_size={lim}).generate_hilbert_space(size={nv})", ValueError,
+                               big.generate_hilbert_space, size=nv, tags={"size": "explicit"})
+                ok_ = ctx.lib("generate_hilbert_space(size=limit)", big.generate_hilbert_space, size=lim)
+                if tuple(ok_.shape) != (2 ** lim, lim):
+                    ctx.violation("shape", f"generate_hilbert_space(size={lim}) at the limit returned {tuple(ok_.shape)}")
     ctx.mark_nontrivial("guard")
 
 
@@ -282,6 +299,21 @@ def file_case(case, ctx):
             alphabet.append("Z")
         samples = rng.integers(0, 2, size=(N, n))
         bases = gen.random_bases(rng, N, n, alphabet="".join(alphabet), p_z=0.35)
+        zmode = i % 5
+        if zmode in (1, 2, 3) and N >= 2 and n >= 2 and len(alphabet) > 1:
+            # patterns of reference-basis rows: none / exactly one / all but one (counts 0 and 1 are where index tricks slip)
+            other = [a for a in alphabet if a != "Z"][0]
+            for r_ in range(N):
+                if all(c == "Z" for c in bases[r_]):
+                    bases[r_, int(rng.integers(0, n))] = other
+            if zmode == 2:
+                bases[int(rng.integers(0, N))] = "Z"
+            elif zmode == 3:
+                keep_ = int(rng.integers(0, N))
+                row_ = bases[keep_].copy()
+                bases[:] = "Z"
+                bases[keep_] = row_
+            ctx.seen("reference_row_patterns", ["random", "none", "exactly-one", "all-but-one"][zmode])
         dim = 2 ** min(n, 4)
         psi = rng.normal(size=(dim, 2)) * 10.0 ** rng.integers(-3, 3)
         mr, mi = rng.normal(size=(dim, dim)), rng.normal(size=(dim, dim))
